@@ -172,6 +172,15 @@ pub struct GridCase {
     /// keys of the line that a Sort operates on (overrides the seeded keys when non-empty)
     pub line_keys: Vec<u8>,
     pub op: GOp,
+    /// non-zero components override `cols` / `rows` (shapes far beyond the exhaustive bounds:
+    /// thresholds that depend on the number of lines or on the bytes per line)
+    #[serde(default)]
+    pub big: (u32, u32),
+}
+impl GridCase {
+    pub fn dims(&self) -> (usize, usize) {
+        (if self.big.0 > 0 { self.big.0 as usize } else { self.cols as usize }, if self.big.1 > 0 { self.big.1 as usize } else { self.rows as usize })
+    }
 }
 
 fn us(x: u64) -> usize {
@@ -669,7 +678,7 @@ fn project<K: Cell>(m: &Model) -> Model {
 }
 
 fn run_t<K: Cell>(k: &GridCase, focus: Focus, ctx: &mut Ctx) -> Result<Outcome, Failure> {
-    let lay = layout(k.cols as usize, k.rows as usize, &k.recv);
+    let lay = layout(k.dims().0, k.dims().1, &k.recv);
     let mut parent = build_parent::<K>(k, &lay);
     let pm = parent_model(&parent);
     let (c, r) = (lay.c, lay.r);
@@ -738,7 +747,7 @@ fn run_t<K: Cell>(k: &GridCase, focus: Focus, ctx: &mut Ctx) -> Result<Outcome, 
                     fail!(format!("{}/outside-touched", name), "{}: parent cell ({},{}) outside the receiver changed from {:#x} to {:#x}", desc(), x, y, wv, g);
                 }
                 if let Some((x, y, g, wv)) = inside {
-                    fail!(format!("{}/wrong-cells", name), "{}: cell ({},{}) is {:#x}, expected {:#x}; window before {:?}, after {:?}, expected {:?}", desc(), x, y, g, wv, w.rows, if c > 0 { after.window(lay.o, (lay.o.0 + c, lay.o.1 + r)).rows } else { vec![] }, wm.rows);
+                    fail!(format!("{}/wrong-cells", name), "{}: cell ({},{}) is {:#x}, expected {:#x}; window before {:?}, after {:?}, expected {:?}", desc(), x, y, g, wv, if c * r <= 400 { w.rows.clone() } else { vec![] }, if c > 0 && c * r <= 400 { after.window(lay.o, (lay.o.0 + c, lay.o.1 + r)).rows } else { vec![] }, if c * r <= 400 { wm.rows.clone() } else { vec![] });
                 }
             }
             out.changed_inside = wm != w;
@@ -756,14 +765,17 @@ fn run_t<K: Cell>(k: &GridCase, focus: Focus, ctx: &mut Ctx) -> Result<Outcome, 
             // (1) ordered, (2) whole lines, each exactly once
             let key_line: Vec<u64> = if by_row { got_w.rows[line].clone() } else { got_w.col(line) };
             let mapped: Vec<i32> = key_line.iter().map(|v| kf((*v >> 16) as u16, keyfn)).collect();
-            ensure!(mapped.windows(2).all(|p| p[0] <= p[1]), format!("{}/not-ordered", name), "{}: line {} is not ordered afterwards: keys {:?}", desc(), line, mapped);
+            ensure!(mapped.windows(2).all(|p| p[0] <= p[1]), format!("{}/not-ordered", name), "{}: line {} is not ordered afterwards: keys {:?}", desc(), line, &mapped[..mapped.len().min(200)]);
             let n = if by_row { c } else { r };
             let line_of = |m: &Model, j: usize| -> Vec<u64> { if by_row { m.col(j) } else { m.rows[j].clone() } };
-            let mut used = vec![false; n];
+            let mut pool: std::collections::HashMap<Vec<u64>, usize> = std::collections::HashMap::new();
+            for i in 0..n {
+                *pool.entry(line_of(&w, i)).or_default() += 1;
+            }
             for j in 0..n {
                 let gl = line_of(&got_w, j);
-                match (0..n).find(|&i| !used[i] && line_of(&w, i) == gl) {
-                    Some(i) => used[i] = true,
+                match pool.get_mut(&gl).filter(|cnt| **cnt > 0) {
+                    Some(cnt) => *cnt -= 1,
                     None => fail!(format!("{}/not-a-permutation-of-whole-lines", name), "{}: result {} {} = {:?} is not one of the original {}s (or appears twice)", desc(), if by_row { "column" } else { "row" }, j, gl, if by_row { "column" } else { "row" }),
                 }
             }
@@ -791,7 +803,7 @@ fn run_t<K: Cell>(k: &GridCase, focus: Focus, ctx: &mut Ctx) -> Result<Outcome, 
         let got_w = if c > 0 { after.window(lay.o, (lay.o.0 + c, lay.o.1 + r)) } else { Model::new() };
         let unstable = matches!(&k.op, GOp::Sort { form, .. } if matches!(*form % 11, 3 | 4 | 5 | 9 | 10));
         if !(unstable && out.had_tie) {
-            ensure!(om == got_w, format!("{}/differs-from-owned", name), "{}: inside the view the result is {:?} but the same operation on an owned copy gives {:?}", desc(), got_w.rows, om.rows);
+            ensure!(om == got_w, format!("{}/differs-from-owned", name), "{}: inside the view the result is {:?} but the same operation on an owned copy gives {:?}", desc(), if c * r <= 400 { got_w.rows.clone() } else { vec![] }, if c * r <= 400 { om.rows.clone() } else { vec![] });
         }
     }
     let _ = ctx;
@@ -921,7 +933,7 @@ pub fn wrap_values(stride: usize) -> Vec<u64> {
 
 /// Replace one index argument of the operation by a wrap-provoking value for the receiver's stride.
 pub fn wrapify(mut k: GridCase, sel: u16) -> GridCase {
-    let lay = layout(k.cols as usize, k.rows as usize, &k.recv);
+    let lay = layout(k.dims().0, k.dims().1, &k.recv);
     let vals = wrap_values(lay.pc);
     let v = vals[(sel as usize >> 4) % vals.len()];
     let which = sel as usize & 15;
@@ -945,7 +957,7 @@ pub fn wrapify(mut k: GridCase, sel: u16) -> GridCase {
 
 /// 4% of the cases get one wrap-provoking index
 pub fn with_wraps(s: BoxedStrategy<GridCase>) -> BoxedStrategy<GridCase> {
-    with_cells((s, any::<u16>(), prop::bool::weighted(0.04)).prop_map(|(k, sel, w)| if w { wrapify(k, sel) } else { k }).boxed())
+    with_big(with_cells((s, any::<u16>(), prop::bool::weighted(0.04)).prop_map(|(k, sel, w)| if w { wrapify(k, sel) } else { k }).boxed()))
 }
 
 /// every index-taking operation with each wrap-provoking value in each argument position
@@ -970,7 +982,7 @@ pub fn enum_wraps(cols: u8, rows: u8, recv: Recv, keep: &dyn Fn(&GOp) -> bool, e
         }
         for op in ops {
             if keep(&op) {
-                emit(GridCase { cell: CellKind::Kc, cols, rows, recv, keyseed: 77, alphabet: 3, line_keys: vec![], op });
+                emit(GridCase { cell: CellKind::Kc, cols, rows, recv, keyseed: 77, alphabet: 3, line_keys: vec![], op, big: (0, 0) });
             }
         }
     }
@@ -978,7 +990,7 @@ pub fn enum_wraps(cols: u8, rows: u8, recv: Recv, keep: &dyn Fn(&GOp) -> bool, e
 
 /// Fat cells are 4800 bytes each: only for small parents.
 fn fat_ok(k: &GridCase) -> bool {
-    let lay = layout(k.cols as usize, k.rows as usize, &k.recv);
+    let lay = layout(k.dims().0, k.dims().1, &k.recv);
     lay.pc * lay.pr <= 400
 }
 
@@ -987,6 +999,27 @@ pub fn with_cells(s: BoxedStrategy<GridCase>) -> BoxedStrategy<GridCase> {
     (s, prop_oneof![88 => Just(CellKind::Kc), 5 => Just(CellKind::K1), 5 => Just(CellKind::K20), 2 => Just(CellKind::Fat)])
         .prop_map(|(mut k, cell)| {
             k.cell = if cell == CellKind::Fat && !fat_ok(&k) { CellKind::K20 } else { cell };
+            k
+        })
+        .boxed()
+}
+
+/// lengths around the thresholds a size-dependent code path is likely to use
+pub const BIG_DIMS: [u32; 12] = [300, 1025, 4096, 4097, 8192, 8200, 16384, 32768, 32769, 65536, 65538, 70001];
+
+/// 0.15% of the cases get one enormous dimension (the other one at most 3)
+pub fn with_big(s: BoxedStrategy<GridCase>) -> BoxedStrategy<GridCase> {
+    (s, prop::bool::weighted(0.0015), 0usize..BIG_DIMS.len(), any::<bool>(), 1u8..=3)
+        .prop_map(|(mut k, big, i, wide, other)| {
+            if big && matches!(k.cell, CellKind::Kc | CellKind::K1) && matches!(k.recv.kind, RecvKind::Owned | RecvKind::ViewMut | RecvKind::Thin) {
+                if wide {
+                    k.big = (BIG_DIMS[i], 0);
+                    k.rows = other;
+                } else {
+                    k.big = (0, BIG_DIMS[i]);
+                    k.cols = other;
+                }
+            }
             k
         })
         .boxed()
@@ -1025,6 +1058,7 @@ pub fn sanitize(k: &mut GridCase, max: u8, views_only: bool) -> bool {
     if let GOp::Sort { form, .. } = &mut k.op {
         *form %= 11;
     }
+    k.big = (0, 0);
     if k.cell == CellKind::Fat && !fat_ok(k) {
         k.cell = CellKind::K20;
     }
@@ -1032,7 +1066,7 @@ pub fn sanitize(k: &mut GridCase, max: u8, views_only: bool) -> bool {
 }
 
 fn case(cols: u8, rows: u8, recv: Recv, keyseed: u32, op: GOp) -> GridCase {
-    GridCase { cell: CellKind::Kc, cols, rows, recv, keyseed, alphabet: 4, line_keys: vec![], op }
+    GridCase { cell: CellKind::Kc, cols, rows, recv, keyseed, alphabet: 4, line_keys: vec![], op, big: (0, 0) }
 }
 
 fn enum_recvs() -> Vec<Recv> {
@@ -1114,7 +1148,7 @@ impl Prop for C13 {
         if tier == Tier::Quick { 400_000 } else { 6_000_000 }
     }
     fn execute(k: &GridCase, ctx: &mut Ctx) -> Verdict {
-        let lay = layout(k.cols as usize, k.rows as usize, &k.recv);
+        let lay = layout(k.dims().0, k.dims().1, &k.recv);
         if lay.c <= 5 && lay.r <= 5 {
             zst_companion(lay.c, lay.r, &k.op)?;
             ctx.class("zero-sized-companion");
@@ -1248,7 +1282,7 @@ impl Prop for C14 {
         if tier == Tier::Quick { 400_000 } else { 6_000_000 }
     }
     fn execute(k: &GridCase, ctx: &mut Ctx) -> Verdict {
-        let lay = layout(k.cols as usize, k.rows as usize, &k.recv);
+        let lay = layout(k.dims().0, k.dims().1, &k.recv);
         if lay.c <= 5 && lay.r <= 5 {
             zst_companion(lay.c, lay.r, &k.op)?;
             ctx.class("zero-sized-companion");
@@ -1364,7 +1398,7 @@ impl Prop for C15 {
         if tier == Tier::Quick { 300_000 } else { 4_000_000 }
     }
     fn execute(k: &GridCase, ctx: &mut Ctx) -> Verdict {
-        let lay = layout(k.cols as usize, k.rows as usize, &k.recv);
+        let lay = layout(k.dims().0, k.dims().1, &k.recv);
         if lay.c <= 5 && lay.r <= 5 {
             zst_companion(lay.c, lay.r, &k.op)?;
             ctx.class("zero-sized-companion");
@@ -1437,7 +1471,7 @@ fn sort_enumerate(by_row: bool, tier: Tier, emit: &mut dyn FnMut(GridCase)) {
                             if keyfn > 0 && other == 1 {
                                 continue;
                             }
-                            emit(GridCase { cell: CellKind::Kc, cols, rows, recv, keyseed: code as u32, alphabet: 3, line_keys: keys.clone(), op: GOp::Sort { form, line, keyfn } });
+                            emit(GridCase { cell: CellKind::Kc, cols, rows, recv, keyseed: code as u32, alphabet: 3, line_keys: keys.clone(), op: GOp::Sort { form, line, keyfn }, big: (0, 0) });
                         }
                     }
                 }
@@ -1452,10 +1486,21 @@ fn sort_enumerate(by_row: bool, tier: Tier, emit: &mut dyn FnMut(GridCase)) {
                 let dim = if by_row { rows } else { cols } as u64;
                 for fi in 0..nforms {
                     for line in [dim, dim + 1, u64::MAX] {
-                        emit(GridCase { cell: CellKind::Kc, cols, rows, recv, keyseed: 5, alphabet: 3, line_keys: vec![], op: GOp::Sort { form: forms[fi], line, keyfn: 0 } });
+                        emit(GridCase { cell: CellKind::Kc, cols, rows, recv, keyseed: 5, alphabet: 3, line_keys: vec![], op: GOp::Sort { form: forms[fi], line, keyfn: 0 }, big: (0, 0) });
                     }
                 }
                 enum_wraps(cols, rows, recv, &|op| matches!(op, GOp::Sort { form, .. } if (*form < 6) == by_row), emit);
+            }
+        }
+    }
+    // very long key lines (thresholds on the number of lines): every variant, ties and inversions throughout
+    for &n in &[1025u32, 32768, 65538] {
+        for recv in [Recv::owned(), Recv::view([1, 0, 1, 1])] {
+            for fi in 0..nforms {
+                for (keyfn, keys) in [(0u8, vec![2u8, 0, 1, 1, 0, 2, 1]), (1, vec![0, 0, 1, 2, 2, 1, 0, 1, 2, 0, 0])] {
+                    let (big, cols, rows) = if by_row { ((n, 0), 0u8, 2u8) } else { ((0, n), 2u8, 0u8) };
+                    emit(GridCase { cell: CellKind::Kc, cols, rows, recv, keyseed: 9, alphabet: 3, line_keys: keys, op: GOp::Sort { form: forms[fi], line: 1, keyfn }, big });
+                }
             }
         }
     }
@@ -1491,7 +1536,7 @@ fn sort_strategy(by_row: bool) -> BoxedStrategy<GridCase> {
                 6 => (0..n).map(|i| if i == 0 { (a - 1) as u8 } else { asc(i) }).collect(),
                 _ => vec![],
             };
-            GridCase { cell: CellKind::Kc, cols, rows, recv, keyseed, alphabet, line_keys, op: GOp::Sort { form, line, keyfn } }
+            GridCase { cell: CellKind::Kc, cols, rows, recv, keyseed, alphabet, line_keys, op: GOp::Sort { form, line, keyfn }, big: (0, 0) }
         })
         .boxed();
     with_wraps(s)
@@ -1527,7 +1572,7 @@ fn zst_sort_companion(c: usize, r: usize, form: u8, line: usize) -> Verdict {
 }
 
 fn sort_execute(k: &GridCase, ctx: &mut Ctx) -> Verdict {
-    let lay = layout(k.cols as usize, k.rows as usize, &k.recv);
+    let lay = layout(k.dims().0, k.dims().1, &k.recv);
     if let GOp::Sort { form, line, .. } = &k.op {
         if lay.c <= 8 && lay.r <= 8 {
             zst_sort_companion(lay.c, lay.r, *form, (*line).min(1 << 20) as usize)?;
@@ -1721,7 +1766,7 @@ impl Prop for C04 {
                         ops.push(GOp::Sort { form, line: 0, keyfn: 1 });
                     }
                     for op in ops {
-                        emit(GridCase { cell: CellKind::Kc, cols, rows, recv, keyseed: (cols as u32) * 16 + rows as u32, alphabet: 3, line_keys: vec![], op });
+                        emit(GridCase { cell: CellKind::Kc, cols, rows, recv, keyseed: (cols as u32) * 16 + rows as u32, alphabet: 3, line_keys: vec![], op, big: (0, 0) });
                     }
                 }
             }
@@ -1744,7 +1789,7 @@ impl Prop for C04 {
                     (idx(ec), idx(er), any::<bool>()).prop_map(|(a, b, via)| GOp::IdxWrite(a, b, via)),
                     (idx(ec), any::<bool>(), 1u8..3, 0u8..3).prop_map(|(cc, rev, step, skip)| GOp::ColMutWrite { c: cc, rev, step, skip }),
                 ];
-                prop_oneof![9 => valid_op(ec, er), 1 => maybe_invalid.boxed()].prop_map(move |op| GridCase { cell: CellKind::Kc, cols, rows, recv, keyseed: seed, alphabet, line_keys: vec![], op })
+                prop_oneof![9 => valid_op(ec, er), 1 => maybe_invalid.boxed()].prop_map(move |op| GridCase { cell: CellKind::Kc, cols, rows, recv, keyseed: seed, alphabet, line_keys: vec![], op, big: (0, 0) })
             })
             .boxed();
         with_wraps(s)
@@ -1756,7 +1801,7 @@ impl Prop for C04 {
         if tier == Tier::Quick { 600_000 } else { 8_000_000 }
     }
     fn execute(k: &GridCase, ctx: &mut Ctx) -> Verdict {
-        let lay = layout(k.cols as usize, k.rows as usize, &k.recv);
+        let lay = layout(k.dims().0, k.dims().1, &k.recv);
         let out = run(k, Focus::ViewIsolation, ctx)?;
         if !out.valid {
             ctx.class("invalid-argument(only outside-unchanged is judged)");
